@@ -485,6 +485,104 @@ def evaluate(spec, wrap):
     return runs, [{'key': k, 'detail': f'graph {spec!r} ({cls}) wrap={wrap}: {d}'} for k, d in fails.items()], outs
 
 
+# ---- one builder object used for several conversions ----------------------------------------------------------------------
+def builder_history_cases(tier):
+    """Cyclic graphs over mutable containers (the back edges can be taken out again)."""
+    q = tier == 'quick'
+    seen = set()
+    for spec in itertools.chain(specs(2, (1,), maxslots=2, types=('list', 'dict')),
+                                specs(3, (1,), maxslots=2, types=('list',) if q else ('list', 'dict'))):
+        if classify(spec) == 'cyclic' and repr(spec) not in seen:
+            seen.add(repr(spec))
+            yield spec
+
+
+def break_cycles(spec, objs_root):
+    """Remove every back edge from the *constructed objects* (same identities). Returns the acyclic spec."""
+    k = len(spec)
+    objs = collect(spec, objs_root)
+    color = [0] * k
+    new_slots = [list(slots) for _, slots in spec]
+
+    def dfs(i):
+        color[i] = 1
+        for n, (kind, v) in enumerate(spec[i][1]):
+            if kind == 'e':
+                if color[v] == 1:
+                    new_slots[i][n] = None
+                elif color[v] == 0:
+                    dfs(v)
+        color[i] = 2
+    dfs(0)
+    for i, (typ, slots) in enumerate(spec):
+        if typ == 'list':
+            objs[i][:] = [x for n, x in enumerate(objs[i]) if new_slots[i][n] is not None]
+        else:
+            for n in range(len(slots)):
+                if new_slots[i][n] is None:
+                    del objs[i][f'k{n}']
+    return objs
+
+
+def collect(spec, root):
+    """The constructed container of every spec node, found by walking the objects along the spec."""
+    objs = [None] * len(spec)
+    objs[0] = root
+    stack = [0]
+    done = set()
+    while stack:
+        i = stack.pop()
+        if i in done:
+            continue
+        done.add(i)
+        typ, slots = spec[i]
+        for n, (kind, v) in enumerate(slots):
+            if kind == 'e':
+                child = objs[i][n] if typ == 'list' else objs[i][f'k{n}']
+                if objs[v] is None:
+                    objs[v] = child
+                stack.append(v)
+    return objs
+
+
+def builder_history_eval(spec, which):
+    """One builder: a cyclic document (rejected), then the same objects with the cycle taken out, then again."""
+    from graphtage.builder import BasicBuilder
+    from graphtage.pydiff import PyObjBuilder
+    spec = tuple((t, tuple(tuple(x) for x in slots)) for t, slots in spec)
+    fails = []
+    for ignore_later in (False, True):
+        root = construct(spec)
+        o = build_options(('auto', 'on'))
+        o.check_for_cycles, o.ignore_cycles = True, False
+        b = (BasicBuilder if which == 'basic' else PyObjBuilder)(o)
+        try:
+            with time_limit(CASE_TIMEOUT):
+                try:
+                    b.build_tree(root)
+                    return [{'key': f'cycle_not_reported @ {which} : builder history', 'detail': repr(spec)}]
+                except ValueError:
+                    pass
+                break_cycles(spec, root)
+                if ignore_later:
+                    b.options.ignore_cycles = True
+                for attempt in (1, 2):
+                    try:
+                        got = b.build_tree(root)
+                    except Exception as e:  # noqa
+                        return [{'key': f'acyclic_document_rejected {type(e).__name__} @ {site_of(e)} : {which} builder that rejected a cyclic document before',
+                                 'detail': f'{spec!r}: after the cycle was taken out, conversion {attempt} on the same builder: {e!r}'}]
+                    o2 = build_options(('auto', 'on'))
+                    o2.check_for_cycles, o2.ignore_cycles = True, ignore_later
+                    want = (BasicBuilder if which == 'basic' else PyObjBuilder)(o2).build_tree(root)
+                    if contains_cyclic_reference(got) or not (got == want):
+                        return [{'key': f'conversion_depends_on_builder_history @ {which} : after a rejected cyclic document',
+                                 'detail': f'{spec!r}: same builder gives {plain_with_placeholders(got)!r}, a fresh builder {plain_with_placeholders(want)!r}'}]
+        except CaseTimeout:
+            return [{'key': f'conversion_does_not_terminate @ {which} : builder history', 'detail': repr(spec)}]
+    return fails
+
+
 def all_specs(tier):
     q = tier == 'quick'
     yield from specs(1, (1, 'a'), types=('dictk',))
@@ -541,6 +639,16 @@ def _shard(i, n, tier, payload):
         if idx % 4999 == 0 and len(r.samples) < 4:
             r.samples.append({'graph': [[t, [list(s) for s in slots]] for t, slots in spec], 'class': c, 'wrapped_in_object': wrap})
     r.extra['graphs_by_class'] = kinds
+    for hidx, hspec in enumerate(builder_history_cases(tier)):
+        if hidx % n != i:
+            continue
+        for which in ('basic', 'pydiff'):
+            r.evaluations += 1
+            hf = builder_history_eval(hspec, which)
+            for f in hf:
+                r.fail(f['key'], {'builder_history': [[t, [list(x) for x in slots]] for t, slots in hspec], 'which': which}, f['detail'], order=3 * 10 ** 8 + hidx)
+            if not hf:
+                r.outcomes.add(h(('bh', hidx, which)))
     # custom objects: every ordered pair of attribute sets, each sequence in a pristine forked process
     from props.c07_pure import in_fresh_child
     j = 0
@@ -566,6 +674,9 @@ def run(ctx):
 
 
 def replay(case):
+    if 'builder_history' in case:
+        fs = builder_history_eval(case['builder_history'], case['which'])
+        return fs[0] if fs else None
     if 'rec' in case:
         from props.c07_pure import in_fresh_child
         a, b = case['rec']
